@@ -153,6 +153,19 @@ def leanchecker(module, timeout=1200):
     return p.returncode, (p.stdout + p.stderr)[-500:]
 
 
+def leanchecker_many(modules, timeout=2400, workers=8):
+    """leanchecker on every module of a list (the property module and everything of the model it imports)"""
+    from concurrent.futures import ThreadPoolExecutor
+
+    def one(m):
+        p = subprocess.run(["lake", "env", "leanchecker", m], cwd=LEAN, capture_output=True, text=True, timeout=timeout)
+        return m, p.returncode, (p.stdout + p.stderr)[-300:]
+    with Lock("lake"):
+        with ThreadPoolExecutor(workers) as ex:
+            res = list(ex.map(one, modules))
+    return [(m, out) for m, rc, out in res if rc != 0], len(res)
+
+
 def check_proofs(module, tier="quick"):
     """returns dict(obligations, discharged, axioms, broken=[...], notes)"""
     t0 = time.time()
@@ -181,9 +194,10 @@ def check_proofs(module, tier="quick"):
     result["discharged"] = len([t for t in thms if t in ax and all(a in ALLOWED_AXIOMS for a in ax[t])])
     result["broken"] = [{"decl": p, "file": module, "line": 0, "msg": "axiom audit"} for p in problems]
     if tier == "thorough" and not result["broken"]:
-        rc, out = leanchecker(module)
-        result["leanchecker"] = "ok" if rc == 0 else out
-        if rc != 0:
-            result["broken"].append({"decl": "leanchecker", "file": module, "line": 0, "msg": out})
+        mods = sorted(imports_closure(module))
+        bad, n = leanchecker_many(mods)
+        result["leanchecker"] = "ok (%d modules: the property module and its import closure inside the model)" % n if not bad else bad
+        for m, out in bad:
+            result["broken"].append({"decl": "leanchecker", "file": m, "line": 0, "msg": out})
     result["wall_s"] = time.time() - t0
     return result
